@@ -122,6 +122,18 @@ def analyse(D, e, run: Run) -> bool:
     # ---- R1 splits on E on every path
     unsplit = [render.text_of(flat)[:120] for ch, sh, flat in shapes if E_WORD not in ch]
     ok1 = not unsplit
+    if unsplit:
+        # the result text comes out of something the interpreter did not reduce (a helper object it lost track of, a table
+        # filled at import time): whether that something looks at the error word is not read off the rendering
+        for ch, sh, flat in shapes:
+            if E_WORD in ch:
+                continue
+            for seg in sh.tail:
+                if seg[0] == "hole" and any(x.op in ("unknown", "widen") or (x.op == "call" and x.a[0].op == "func")
+                                            or (x.op == "global" and x.a[0].startswith("pykdebugparser."))
+                                            for x in sym.walk(seg[1])):
+                    raise AnalysisError(f"{e.key} ({scope}): the result part is computed through a structure that is not reduced to "
+                                        f"the END record's words ({sym.pretty(seg[1])[:100]}): the precedence of errors is not decided")
     run.ob("R1", mod, scope, e.key, ok1,
            "" if ok1 else f"the rendering does not consult the END record's error word (events[-1].values[0]) on "
                           f"{len(unsplit)} of {len(shapes)} alternatives, e.g. {unsplit[0]!r}: errors cannot take "
@@ -135,6 +147,17 @@ def analyse(D, e, run: Run) -> bool:
         tail = sh.tail
         text = "".join(s[1] for s in tail if s[0] == "lit")
         tail_holes = [s[1] for s in tail if s[0] == "hole"]
+        def undecided_if_unreduced(problems_):
+            # a table of the package filled at import time, a comprehension the interpreter left standing, a helper it could
+            # not follow: what the result part shows is then not reduced to the END record's words, and a finding about it
+            # would be a finding about the analysis
+            if not problems_:
+                return
+            for h_ in tail_holes:
+                if any(x.op in ("unknown", "widen", "elem") or (x.op == "call" and x.a[0].op == "func")
+                       or (x.op == "global" and x.a[0].startswith("pykdebugparser.")) for x in sym.walk(h_)):
+                    raise AnalysisError(f"{e.key} ({scope}): the result part is computed through a structure that is not reduced "
+                                        f"to the END record's words ({sym.pretty(h_)[:100]}): errors / return values are not decided")
         e_true = ch[E_WORD]
         cond_txt = ", ".join(f"{sym.pretty(c)}={v}" for c, v in ch.items())
         construct = f"{e.key}:{'error' if e_true else 'success'}[{cond_txt[:80]}]"
@@ -160,6 +183,7 @@ def analyse(D, e, run: Run) -> bool:
                     problems.append(f"shows {sym.pretty(t)[:60]}: not exactly the error code or its name")
             if not exact and "errno: " in text:
                 problems.append("the error code itself (events[-1].values[0]) is not shown")
+            undecided_if_unreduced(problems)
             run.ob("R2", mod, scope, construct, not problems, "; ".join(problems), facts=f, line=e.func.lineno)
         else:
             problems = []
@@ -179,6 +203,7 @@ def analyse(D, e, run: Run) -> bool:
                                     f"(uses {fmt_atoms(extra)})")
                 if ("END", 1) in end_atoms and _has_arith(t, R_WORD):
                     problems.append(f"success value {sym.pretty(t)[:60]} applies arithmetic to the return word")
+            undecided_if_unreduced(problems)
             run.ob("R3", mod, scope, construct, not problems, "; ".join(problems), facts=f, line=e.func.lineno)
     return True
 
